@@ -290,7 +290,11 @@ func (run *runner) exec(or *OpResult, res *ImplRun) {
 		}
 		hello := &wamp.Hello{Realm: realmURI(op.Realm), Details: orEmptyDict(op.Hello).ToDict()}
 		go func() { cli.Send() <- hello }()
-		err := run.rt.AttachClient(peer, nil)
+		var td wamp.Dict
+		if op.Transport.T == 'd' && len(op.Transport.D) > 0 {
+			td = op.Transport.ToDict()
+		}
+		err := run.rt.AttachClient(peer, td)
 		var first wamp.Message
 		select {
 		case first = <-cli.Recv():
